@@ -363,8 +363,24 @@ def run_case(case, obs):
             x0, y0 = 0, 0                      # the box at the image origin
         box = (x0, x0 + w, y0, y0 + h)
         pat = ['ones', 'frac', 'int', 'checker', 'signed', 'bool', 'uint8', 'counts'][nrng.integers(8)]
-        mask = RegionMask(weights(nrng, h, w, pat), RegionBoundingBox(*box))
+        wts = weights(nrng, h, w, pat)
+        form = int(nrng.integers(6))
+        if form == 0 and h and w:
+            wts = wts.tolist()                  # array_like: a nested list ...
+            pat += ' as-list'
+        elif form == 1 and h and w:
+            wts = tuple(tuple(r) for r in wts.tolist())          # ... or nested tuples
+            pat += ' as-tuples'
+        mask = RegionMask(wts, RegionBoundingBox(*box))
         tag = pat
+    clone = int(nrng.integers(8))
+    if clone < 3:
+        # a mask that went through copy / deepcopy / pickle (e.g. to a worker process) is the same mask
+        import copy
+        import pickle
+        mask = [copy.copy, copy.deepcopy, lambda m: pickle.loads(pickle.dumps(m))][clone](mask)
+        tag += ' ' + ['copied', 'deep-copied', 'unpickled'][clone]
+        obs.count('masks-cloned-before-use')
     shape = (int(nrng.integers(0, 48)), int(nrng.integers(0, 64)))
     if nrng.random() < 0.1:
         shape = (int(nrng.integers(0, 3)), int(nrng.integers(0, 3)))
